@@ -28,8 +28,16 @@ fn pj(dims: &[usize], xs: &[f64]) -> Value {
     let mut v: Vec<i64> = Vec::with_capacity(dims.len() + xs.len());
     for d in dims { eat(*d as u64 ^ 0xD1D1_0000_0000_0000); v.push(if (*d as i64) < SAT && (*d as i64) >= 0 { *d as i64 } else { BAD }); }
     for x in xs { eat(x.to_bits()); v.push(if x.is_finite() && *x == x.trunc() && x.abs() < SAT as f64 { *x as i64 } else { BAD }); }
-    json!({"v": v, "h": format!("{:016x}", h)})
+    let mut o = json!({"v": v, "h": format!("{:016x}", h)});
+    if INEX.load(std::sync::atomic::Ordering::Relaxed) {
+        // bit patterns as 16-hex strings; the sign of a zero and NaN payloads are not demanded
+        o["x"] = Value::from(xs.iter().map(|x| if *x == 0.0 { bits(0.0) } else if x.is_nan() { bits(f64::NAN) } else { bits(*x) }).collect::<Vec<String>>());
+    }
+    o
 }
+static VSEED: std::sync::atomic::AtomicU64 = std::sync::atomic::AtomicU64::new(1);
+static PAT: Mutex<String> = Mutex::new(String::new());
+static INEX: std::sync::atomic::AtomicBool = std::sync::atomic::AtomicBool::new(false);
 pub trait P { fn p(&self) -> Value; }
 impl P for f64 { fn p(&self) -> Value { pj(&[], &[*self]) } }
 impl P for usize { fn p(&self) -> Value { pj(&[*self], &[]) } }
@@ -205,6 +213,9 @@ fn rhs_tri(n: usize, s: i64, sa: i64) -> T3 { if n == 0 { return T3::empty(); } 
 fn rhs_poly(len: usize, s: i64, sa: i64) -> Pl { match rhs_kind().as_str() {
     "same" | "alias" => poly(len, sa), "zero" => Pl::new(vec![0.0; len]), "eye" => Pl::new((0..len).map(|k| if k == 0 { 1.0 } else { 0.0 }).collect()), _ => poly(len, s) } }
 
+fn cmat_xs(m: &Matrix<Cmplx>) -> Vec<f64> { let mut xs = vec![]; for i in 0..m.rows() { for j in 0..m.cols() { xs.push(m[(i, j)].real); xs.push(m[(i, j)].imag); } } xs }
+impl P for Matrix<Cmplx> { fn p(&self) -> Value { pj(&[self.rows(), self.cols()], &cmat_xs(self)) } }
+impl P for Banded<Cmplx> { fn p(&self) -> Value { let c = self.compact(); pj(&[self.size(), self.size_below(), self.size_above(), c.rows(), c.cols()], &cmat_xs(c)) } }
 impl P for Polynomial<Cmplx> { fn p(&self) -> Value { let mut xs = vec![]; for i in 0..self.size() { xs.push(self[i].real); xs.push(self[i].imag); } pj(&[self.size()], &xs) } }
 impl P for Result<(Pl, Pl), &'static str> { fn p(&self) -> Value { match self { Ok(qr) => qr.p(), Err(_) => pj(&[0], &[]) } } }
 impl P for Result<f64, f64> { fn p(&self) -> Value { match self { Ok(x) => pj(&[1], &[*x]), Err(x) => pj(&[0], &[*x]) } } }
@@ -468,6 +479,15 @@ fn call(g: &str, t: &[i64], c: Ctl) -> Vec<Value> {
     *CTL.lock().unwrap() = Some(c);
     let u: Vec<usize> = t.iter().map(|x| if *x < 0 { usize::MAX / 4 } else { *x as usize }).collect();
     let mut rec = Rec { g: g.to_string(), forms: vec![] };
+    let pat = PAT.lock().unwrap().clone();
+    INEX.store(pat.starts_with("inexact"), std::sync::atomic::Ordering::Relaxed);
+    if let Some(rest) = pat.strip_prefix("inexact") {
+        let (cx, sd) = match rest.strip_prefix('c') { Some(n) => (true, n.parse::<u64>().unwrap_or(1)), None => (false, rest.parse::<u64>().unwrap_or(1)) };
+        let sd = sd + 1000 * VSEED.load(std::sync::atomic::Ordering::Relaxed);
+        let ok = if cx { inexact_call::<Cmplx>(&mut rec, g, &u, sd + 100) } else { inexact_call::<f64>(&mut rec, g, &u, sd) };
+        if !ok { eprintln!("TOOL-ERROR guards: no inexact binding for group {}", g); std::process::exit(2) }
+        return rec.forms;
+    }
     let ok = match g.split('.').next().unwrap_or("") {
         "vec" => call_vec(&mut rec, g, &u), "mat" => call_mat(&mut rec, g, &u), "band" => call_band(&mut rec, g, &u, t),
         "tri" => call_tri(&mut rec, g, &u), "sparse" => call_sparse(&mut rec, g, &u),
@@ -487,6 +507,8 @@ pub fn exec(case: &Value, out: &mut Out) {
             let c = Ctl { prep: gets(case, "prep").to_string(), old: ivec(&case["old"]).iter().map(|x| *x as usize).collect(), rhs: gets(case, "rhs").to_string(),
                           sc: case.get("sc").and_then(|v| v.as_u64()).unwrap_or(0) as usize, mixed: gets(case, "pat") == "mixed" };
             let var = json!({"prep": case.get("prep").cloned().unwrap_or(json!("")), "old": case.get("old").cloned().unwrap_or(json!([])), "rhs": case.get("rhs").cloned().unwrap_or(json!("other")), "sc": c.sc, "pat": case.get("pat").cloned().unwrap_or(json!("plain"))});
+            *PAT.lock().unwrap() = gets(case, "pat").to_string();
+            VSEED.store(case.get("vseed").and_then(|v| v.as_u64()).unwrap_or(1), std::sync::atomic::Ordering::Relaxed);
             match guarded(|| call(g, &t, c)) {
                 Ok(forms) => out.ev(json!({"op": "call", "g": g, "t": t, "accept": case["accept"], "forms": forms, "var": var, "cid": cid})),
                 Err(msg) => out.ev(json!({"op": "call", "g": g, "t": t, "accept": case["accept"], "forms": [], "crash": msg, "var": var, "cid": cid})),
@@ -503,6 +525,77 @@ pub fn exec(case: &Value, out: &mut Out) {
         "session" => exec_session(case, out),
         k => { eprintln!("TOOL-ERROR guards: unknown case kind {}", k); std::process::exit(2) }
     }
+}
+
+// ================================================================== by-reference vs consuming forms on INEXACT data
+/// element types of the inexact family: f64 and Complex<f64>
+trait Gx: Copy + ohsl::Number + ohsl::Signed + PartialOrd + std::fmt::Debug + 'static { fn mk(a: f64, b: f64) -> Self; }
+impl Gx for f64 { fn mk(a: f64, _b: f64) -> f64 { a } }
+impl Gx for Cmplx { fn mk(a: f64, b: f64) -> Cmplx { Cmplx::new(a, b) } }
+fn mix64(mut z: u64) -> u64 { z = z.wrapping_add(0x9E3779B97F4A7C15); z = (z ^ (z >> 30)).wrapping_mul(0xBF58476D1CE4E5B9); z = (z ^ (z >> 27)).wrapping_mul(0x94D049BB133111EB); z ^ (z >> 31) }
+/// a generic inexact value determined by (seed, stream, index): tenths, thirds, random significands, magnitudes 1e-8..1e8
+fn gval(seed: u64, s: u64, k: usize) -> f64 {
+    let h = mix64(seed.wrapping_mul(1_000_003) ^ s.wrapping_mul(7919) ^ ((k as u64) << 20));
+    let sig = 1.0 + ((h >> 11) as f64) / ((1u64 << 53) as f64); let sign = if h & 1 == 0 { 1.0 } else { -1.0 };
+    match (h >> 1) % 5 {
+        0 => sign * ((k + 1 + (s % 7) as usize) as f64) / 10.0,
+        1 => sign * ((k + 1) as f64) / 3.0,
+        2 => sign * sig,
+        3 => sign * sig * 10f64.powi(((h >> 4) % 17) as i32 - 8),
+        _ => sign * (0.7 + (k as f64) * 1.2),
+    }
+}
+fn gx<T: Gx>(seed: u64, s: u64, k: usize) -> T { T::mk(gval(seed, s, k), gval(seed, s + 500, k)) }
+fn gvec<T: Gx>(sd: u64, n: usize, s: u64) -> Vector<T> { Vector::create((0..n).map(|k| gx::<T>(sd, s, k)).collect()) }
+fn gmat<T: Gx>(sd: u64, r: usize, c: usize, s: u64) -> Matrix<T> { let mut m = Matrix::<T>::new(r, c, T::mk(0.0, 0.0)); for i in 0..r { for j in 0..c { m[(i, j)] = gx::<T>(sd, s, i * c + j); } } m }
+fn gband<T: Gx>(sd: u64, n: usize, m1: usize, m2: usize, s: u64) -> Banded<T> {
+    let mut b = Banded::<T>::new(n, m1, m2, T::mk(0.0, 0.0));
+    for i in 0..n { for j in 0..n { if j <= i + m2 && i <= j + m1 { b[(i, j)] = gx::<T>(sd, s, i * n + j); } } } b
+}
+fn gpoly<T: Gx>(sd: u64, len: usize, s: u64) -> Polynomial<T> { Polynomial::new((0..len).map(|k| gx::<T>(sd, s, k)).collect()) }
+fn gtri<T: Gx>(sd: u64, n: usize, s: u64) -> Tridiagonal<T> {
+    if n == 0 { return Tridiagonal::<T>::empty(); }
+    Tridiagonal::with_vectors(gvec::<T>(sd, n - 1, s), gvec::<T>(sd, n, s + 1), gvec::<T>(sd, n - 1, s + 2))
+}
+
+/// every form of a paired group on the same inexact operands (results carry their bit patterns: pj in INEX mode)
+fn inexact_call<T: Gx>(rec: &mut Rec, op: &str, u: &[usize], sd: u64) -> bool
+where Vector<T>: P, Matrix<T>: P, Banded<T>: P, Polynomial<T>: P, Tridiagonal<T>: P {
+    let k: T = gx::<T>(sd, 99, 3);
+    match op {
+        "vec.add" | "vec.sub" => { let (a, b) = (gvec::<T>(sd, u[0], 1), gvec::<T>(sd, u[1], 2)); let add = op == "vec.add";
+            bref!(rec, "ref", [a, b], if add { &a + &b } else { &a - &b });
+            let a2 = a.clone(); bref!(rec, "mix", [b], if add { a2 + &b } else { a2 - &b });
+            own!(rec, "own", if add { a.clone() + b.clone() } else { a.clone() - b.clone() }); }
+        "mat.add" | "mat.sub" => { let (a, b) = (gmat::<T>(sd, u[0], u[1], 1), gmat::<T>(sd, u[2], u[3], 2)); let add = op == "mat.add";
+            bref!(rec, "ref", [a, b], if add { &a + &b } else { &a - &b }); own!(rec, "own", if add { a.clone() + b.clone() } else { a.clone() - b.clone() }); }
+        "mat.add_assign" | "mat.sub_assign" => { let (a, b) = (gmat::<T>(sd, u[0], u[1], 1), gmat::<T>(sd, u[2], u[3], 2)); let add = op == "mat.add_assign";
+            let mut x = a.clone(); bref!(rec, "ref", [b], { if add { x += &b } else { x -= &b }; x });
+            let mut y = a.clone(); own!(rec, "own", { if add { y += b.clone() } else { y -= b.clone() }; y }); }
+        "mat.matmul" => { let (a, b) = (gmat::<T>(sd, u[0], u[1], 1), gmat::<T>(sd, u[2], u[3], 2)); bref!(rec, "ref", [a, b], &a * &b); own!(rec, "own", a.clone() * b.clone()); }
+        "mat.matvec" => { let (a, v) = (gmat::<T>(sd, u[0], u[1], 1), gvec::<T>(sd, u[2], 2));
+            bref!(rec, "ref", [a, v], &a * &v); own!(rec, "own", a.clone() * v.clone()); bref!(rec, "method", [a, v], a.multiply(&v)); }
+        "mat.neg" => { let a = gmat::<T>(sd, u[0], u[1], 1); bref!(rec, "ref", [a], -&a); own!(rec, "own", -(a.clone())); }
+        "mat.mul_scalar" => { let a = gmat::<T>(sd, u[0], u[1], 1); bref!(rec, "ref", [a], &a * k); own!(rec, "own", a.clone() * k); }
+        "mat.div_scalar" => { let a = gmat::<T>(sd, u[0], u[1], 1); bref!(rec, "ref", [a], &a / k); own!(rec, "own", a.clone() / k); }
+        "band.add" | "band.sub" => { let (a, b) = (gband::<T>(sd, u[0], u[1], u[2], 1), gband::<T>(sd, u[3], u[4], u[5], 2)); let add = op == "band.add";
+            bref!(rec, "ref", [a, b], if add { &a + &b } else { &a - &b }); own!(rec, "own", if add { a.clone() + b.clone() } else { a.clone() - b.clone() }); }
+        "band.add_assign" | "band.sub_assign" => { let (a, b) = (gband::<T>(sd, u[0], u[1], u[2], 1), gband::<T>(sd, u[3], u[4], u[5], 2)); let add = op == "band.add_assign";
+            let mut x = a.clone(); bref!(rec, "ref", [b], { if add { x += &b } else { x -= &b }; x });
+            let mut y = a.clone(); own!(rec, "own", { if add { y += b.clone() } else { y -= b.clone() }; y }); }
+        "band.matvec" => { let (a, v) = (gband::<T>(sd, u[0], u[1], u[2], 1), gvec::<T>(sd, u[3], 2)); bref!(rec, "ref", [a, v], &a * &v); own!(rec, "own", a.clone() * v.clone()); }
+        "band.neg" => { let a = gband::<T>(sd, u[0], u[1], u[2], 1); bref!(rec, "ref", [a], -&a); own!(rec, "own", -(a.clone())); }
+        "band.mul_scalar" => { let a = gband::<T>(sd, u[0], u[1], u[2], 1); bref!(rec, "ref", [a], &a * k); own!(rec, "own", a.clone() * k); }
+        "band.div_scalar" => { let a = gband::<T>(sd, u[0], u[1], u[2], 1); bref!(rec, "ref", [a], &a / k); own!(rec, "own", a.clone() / k); }
+        "tri.matvec" => { let (a, v) = (gtri::<T>(sd, u[0], 1), gvec::<T>(sd, u[1], 5)); bref!(rec, "ref", [a, v], &a * &v); own!(rec, "own", a.clone() * v.clone()); }
+        "poly.add" => { let (p, q) = (gpoly::<T>(sd, u[0], 1), gpoly::<T>(sd, u[1], 2)); bref!(rec, "ref", [p, q], &p + &q); own!(rec, "own", p.clone() + q.clone()); }
+        "poly.sub" => { let (p, q) = (gpoly::<T>(sd, u[0], 1), gpoly::<T>(sd, u[1], 2)); bref!(rec, "ref", [p, q], &p - &q); own!(rec, "own", p.clone() - q.clone()); }
+        "poly.mul" => { let (p, q) = (gpoly::<T>(sd, u[0], 1), gpoly::<T>(sd, u[1], 2)); bref!(rec, "ref", [p, q], &p * &q); own!(rec, "own", p.clone() * q.clone()); }
+        "poly.neg" => { let p = gpoly::<T>(sd, u[0], 1); bref!(rec, "ref", [p], -&p); own!(rec, "own", -(p.clone())); }
+        "poly.mul_scalar" => { let p = gpoly::<T>(sd, u[0], 1); bref!(rec, "ref", [p], &p * k); own!(rec, "own", p.clone() * k); }
+        _ => return false,
+    }
+    true
 }
 
 // ================================================================== workspace sessions (Ohsl.tla)
